@@ -390,7 +390,17 @@ impl VariablesState {
                 _ => false,
             },
             ValueType::List(val) => match &default_val.value {
-                ValueType::List(default_val) => *val == *default_val,
+                // (two empty lists can still belong to different lists)
+                ValueType::List(default_val) => {
+                    *val == *default_val
+                        && (!val.items.is_empty() || {
+                            let mut origins = val.get_origin_names();
+                            let mut default_origins = default_val.get_origin_names();
+                            origins.sort();
+                            default_origins.sort();
+                            origins == default_origins
+                        })
+                }
                 _ => false,
             },
             ValueType::String(val) => match &default_val.value {
